@@ -14,6 +14,7 @@ from vkit import progs, world
 from vkit.runner import Result
 
 ID = "C01"
+SHARDS = 4
 LEVEL = "exploration"
 RULE = (
     "all ordered forests of messages/actions with <= N nodes x all assignments of <= k "
